@@ -128,7 +128,7 @@ theorem cycle_main (cfg : Cfg) (P : Store) (now now1 : Tick) (exec : Id → Nat 
                      (postState cfg P now now1 exec) cfg.owned (known cfg)
               else store (midStore cfg P now) (postState cfg P now now1 exec),
         closed := done (postState cfg P now now1 exec) (known cfg),
-        delays := delays (postState cfg P now now1 exec) (known cfg) now1 } := by
+        delays := delays (postState cfg P now now1 exec) (known cfg).eraseDups now1 } := by
   unfold cycle
   simp only [hr, hne, Bool.not_true, Bool.false_eq_true, if_false]
   unfold postState midStore preState extras
